@@ -1,6 +1,7 @@
 CONFIG = dict(
-    coqfiles=["Props/C16.v"],
+    coqfiles=["Props/C16.v", "Props/C16N.v"],
     n_quick=12000, n_thorough=600000, workers_quick=8,
+    sub=["C16N"],
     rule="object of 0-24 bytes under one of the 8 digest functions (12% with a digest whose size or hash is wrong); a STACK of 1-3 WithErrorHandler decorators (35% depth >= 2) "
          "over an original buffer and 0-3 replacement buffers, each carrying the object (12%: truncated / extended / one byte changed / unrelated) cut into <= 8 chunks incl. empty chunks, "
          "an I/O error at a random event position in every buffer but the last; buffer kinds: CAS chunk-reader buffer, CAS reader buffer (EOF attached to data or on its own call), "
